@@ -50,6 +50,10 @@ func ctxDone() bool                              { return false }
 func fitsInt64(x int64) bool                     { return true }
 func fitsInt32(x int64) bool                     { return true }
 func deferActive(field string) bool              { return false }
+func sameFloat(a, b float64) bool                { return a == b }
+func firstret[T any](f any, i int) T             { var z T; return z }
+func dynret[T any](f any, i int, args ...any) T  { var z T; return z }
+func deferObj[T any](field string) T             { var z T; return z }
 func deferVal[T any](field string) T             { var z T; return z }
 func isNaN(f float64) bool                       { return f != f }
 func isInf(f float64) bool                       { return false }
@@ -287,7 +291,7 @@ func uninterp[T any](name string, args ...any) T { var z T; return z }
 //@ func (*Executor).executeItemOptUnwrapResult
 //@ props C01 C13
 //@ requires node != nil
-//@ requires found != nil
+//@ requires unwrap && exec.path.IsLax() ==> found != nil
 //@ loop 1 invariant [C20 C05] no-pending: pendingErr() == nil && !pendingFailed()
 //@ ensures [C01] direct: !(unwrap && exec.path.IsLax()) ==> ncalls(exec.executeItem) == 1 && callarg[*valueList](exec.executeItem, "found") == found && callarg[any](exec.executeItem, "value") == value && r0 == callret[resultStatus](exec.executeItem, 0) && r1 == callret[error](exec.executeItem, 1)
 //@ ensures [C01] collected: unwrap && exec.path.IsLax() ==> callarg[any](exec.executeItem, "value") == value && callarg[ast.Node](exec.executeItem, "node") == node && fresh(callarg[*valueList](exec.executeItem, "found"))
@@ -299,3 +303,361 @@ func uninterp[T any](name string, args ...any) T { var z T; return z }
 //@ ensures [C05] array-only: is[[]any](value) ==> ncalls(exec.executeAnyItem) == 1 && r0 == callret[resultStatus](exec.executeAnyItem, 0) && r1 == callret[error](exec.executeAnyItem, 1)
 //@ ensures [C01 C07] one-level: is[[]any](value) ==> callarg[uint32](exec.executeAnyItem, "level") == 1 && callarg[uint32](exec.executeAnyItem, "first") == 1 && callarg[uint32](exec.executeAnyItem, "last") == 1 && !callarg[bool](exec.executeAnyItem, "unwrapNext") && !callarg[bool](exec.executeAnyItem, "ignoreStructuralErrors") && callarg[*valueList](exec.executeAnyItem, "found") == found && callarg[ast.Node](exec.executeAnyItem, "node") == node
 //@ ensures [C01] collect-cannot-fail: node == nil && found != nil && is[[]any](value) ==> r0 != statusFailed && r1 == nil
+
+// ---------------------------------------------------------------------------
+// op.go: wildcards, recursive descent, filters
+
+//@ func collection
+//@ props C15
+//@ ensures [C15] array: is[[]any](v) ==> sameSlice(r0, as[[]any](v))
+//@ ensures [C15] scalar: !is[[]any](v) && !is[map[string]any](v) ==> r0 == nil
+//@ ensures [C15] object: is[map[string]any](v) ==> len(r0) == len(as[map[string]any](v))
+//@ ensures [C15] nil-iff-scalar: (is[[]any](v) && as[[]any](v) != nil) || is[map[string]any](v) ==> r0 != nil
+
+//@ func (*Executor).executeAnyItem
+//@ props C01 C07 C15
+//@ loop 1 invariant [C07 C20 C05] no-pending: pendingErr() == nil && !pendingFailed() && err == nil && res != statusFailed
+//@ loop 1 invariant status: res == statusOK || res == statusNotFound
+//@ loop 1 invariant [C09 C16] id-grows: exec.lastGeneratedObjectID >= old(exec.lastGeneratedObjectID)
+//@ loop 1 invariant [C09 C07] ise-restore: implies(deferActive("ignoreStructuralErrors"), deferObj[*Executor]("ignoreStructuralErrors") == exec && deferVal[bool]("ignoreStructuralErrors") == old(exec.ignoreStructuralErrors)) && implies(!deferActive("ignoreStructuralErrors"), exec.ignoreStructuralErrors == old(exec.ignoreStructuralErrors))
+//@ loop 1 invariant [C15] visit-each: node != nil && level >= first ==> ncalls(exec.executeItemOptUnwrapTarget) == loopEntry(ncalls(exec.executeItemOptUnwrapTarget)) + rangeindex + 1
+//@ loop 1 invariant [C15] descend-each: level < last ==> ncalls(exec.executeAnyItem) == loopEntry(ncalls(exec.executeAnyItem)) + rangeindex + 1
+//@ loop 1 invariant [C15] collect-each: node == nil && found != nil && level >= first && level >= last ==> len(found.list) == loopEntry(len(found.list)) + rangeindex + 1
+//@ atcall executeItemOptUnwrapTarget assert [C15 C01] visit: arg_value == v && arg_node == node && arg_found == found && arg_unwrap == unwrapNext && (level >= first || (first == 4294967295 && last == 4294967295 && col == nil))
+//@ atcall executeItemOptUnwrapTarget assert [C07] below-anypath: ignoreStructuralErrors ==> exec.ignoreStructuralErrors
+//@ atcall executeAnyItem assert [C15] descend: level < last && arg_level == level+1 && arg_first == first && arg_last == last && arg_node == node && arg_found == found && sameSlice(arg_value, col) && arg_ignoreStructuralErrors == ignoreStructuralErrors && arg_unwrapNext == unwrapNext
+//@ ensures [C15] level-cut: level > last ==> r0 == statusNotFound && r1 == nil && ncalls(exec.executeItemOptUnwrapTarget) == 0 && ncalls(exec.executeAnyItem) == 0
+//@ ensures [C01] collect-cannot-fail: node == nil && found != nil ==> r0 != statusFailed && r1 == nil
+
+//@ func (*Executor).execAnyNode
+//@ props C15 C07
+//@ schematic noE6failure "as in PostgreSQL, a silently failed depth-0 step of .** does not stop the descent; an error object always does (E6-error)"
+//@ ensures [C15] depth-zero: node.First() == 0 ==> ncalls(exec.executeNextItem) == 1 && callarg[any](exec.executeNextItem, "value") == value && callarg[*valueList](exec.executeNextItem, "found") == found
+//@ ensures [C15] no-depth-zero: node.First() != 0 ==> ncalls(exec.executeNextItem) == 0
+//@ atcall executeNextItem assert [C07] forced-lax: exec.ignoreStructuralErrors
+//@ atcall executeAnyItem assert [C15] from-level-1: arg_level == 1 && arg_first == node.First() && arg_last == node.Last() && arg_ignoreStructuralErrors && arg_found == found && arg_node == node.Next()
+//@ ensures [C15] scalar: !is[[]any](value) && !is[map[string]any](value) ==> ncalls(exec.executeAnyItem) == 0
+
+//@ func (*Executor).execBinaryNode
+//@ props C01 C13
+//@ ensures [C01] math: node.Operator() >= ast.BinaryAdd && node.Operator() <= ast.BinaryMod ==> ncalls(exec.execBinaryMathExpr) == 1 && r0 == callret[resultStatus](exec.execBinaryMathExpr, 0) && r1 == callret[error](exec.execBinaryMathExpr, 1) && callarg[any](exec.execBinaryMathExpr, "value") == value && callarg[*valueList](exec.execBinaryMathExpr, "found") == found
+//@ ensures [C01 C11] boolean: node.Operator() <= ast.BinaryStartsWith ==> ncalls(exec.executeBoolItem) == 1 && callarg[any](exec.executeBoolItem, "value") == value && ncalls(exec.appendBoolResult) == 1 && callarg[predOutcome](exec.appendBoolResult, "res") == callret[predOutcome](exec.executeBoolItem, 0) && callarg[error](exec.appendBoolResult, "err") == callret[error](exec.executeBoolItem, 1) && callarg[*valueList](exec.appendBoolResult, "found") == found && r0 == callret[resultStatus](exec.appendBoolResult, 0) && r1 == callret[error](exec.appendBoolResult, 1)
+//@ ensures [C01 C16] decimal: node.Operator() == ast.BinaryDecimal ==> ncalls(exec.executeNumberMethod) == 1 && r0 == callret[resultStatus](exec.executeNumberMethod, 0) && r1 == callret[error](exec.executeNumberMethod, 1)
+
+//@ func (*Executor).execUnaryNode
+//@ props C01 C10 C13
+//@ ensures [C10] filter-unwrap: node.Operator() == ast.UnaryFilter && unwrap && is[[]any](value) ==> ncalls(exec.executeItemUnwrapTargetArray) == 1 && callarg[any](exec.executeItemUnwrapTargetArray, "value") == value && callarg[*valueList](exec.executeItemUnwrapTargetArray, "found") == found && ncalls(exec.executeNestedBoolItem) == 0 && r0 == callret[resultStatus](exec.executeItemUnwrapTargetArray, 0) && r1 == callret[error](exec.executeItemUnwrapTargetArray, 1)
+//@ ensures [C10] filter-eval: node.Operator() == ast.UnaryFilter && !(unwrap && is[[]any](value)) ==> ncalls(exec.executeNestedBoolItem) == 1 && callarg[any](exec.executeNestedBoolItem, "value") == value && callarg[ast.Node](exec.executeNestedBoolItem, "node") == node.Operand()
+//@ ensures [C10] filter-keep: node.Operator() == ast.UnaryFilter && !(unwrap && is[[]any](value)) && callret[predOutcome](exec.executeNestedBoolItem, 0) == predTrue ==> ncalls(exec.executeNextItem) == 1 && callarg[any](exec.executeNextItem, "value") == value && callarg[*valueList](exec.executeNextItem, "found") == found && r0 == callret[resultStatus](exec.executeNextItem, 0) && r1 == callret[error](exec.executeNextItem, 1)
+//@ ensures [C10] filter-drop: node.Operator() == ast.UnaryFilter && !(unwrap && is[[]any](value)) && callret[predOutcome](exec.executeNestedBoolItem, 0) != predTrue && callret[error](exec.executeNestedBoolItem, 1) == nil ==> ncalls(exec.executeNextItem) == 0 && r0 == statusNotFound && r1 == nil
+//@ ensures [C10 C20 C08] filter-error: node.Operator() == ast.UnaryFilter && !(unwrap && is[[]any](value)) && callret[error](exec.executeNestedBoolItem, 1) != nil ==> r0 == statusFailed && r1 == callret[error](exec.executeNestedBoolItem, 1)
+//@ ensures [C01 C11] boolean: node.Operator() == ast.UnaryNot || node.Operator() == ast.UnaryIsUnknown || node.Operator() == ast.UnaryExists ==> ncalls(exec.executeBoolItem) == 1 && ncalls(exec.appendBoolResult) == 1 && callarg[predOutcome](exec.appendBoolResult, "res") == callret[predOutcome](exec.executeBoolItem, 0) && callarg[error](exec.appendBoolResult, "err") == callret[error](exec.executeBoolItem, 1) && r0 == callret[resultStatus](exec.appendBoolResult, 0) && r1 == callret[error](exec.appendBoolResult, 1)
+//@ ensures [C13] sign: node.Operator() == ast.UnaryPlus || node.Operator() == ast.UnaryMinus ==> ncalls(exec.execUnaryMathExpr) == 1 && r0 == callret[resultStatus](exec.execUnaryMathExpr, 0) && r1 == callret[error](exec.execUnaryMathExpr, 1)
+//@ ensures [C17] datetime-unwrap: node.Operator() >= ast.UnaryDateTime && unwrap && is[[]any](value) ==> ncalls(exec.executeAnyItem) == 1 && ncalls(exec.executeDateTimeMethod) == 0
+//@ ensures [C17] datetime: node.Operator() >= ast.UnaryDateTime && !(unwrap && is[[]any](value)) ==> ncalls(exec.executeDateTimeMethod) == 1 && r0 == callret[resultStatus](exec.executeDateTimeMethod, 0) && r1 == callret[error](exec.executeDateTimeMethod, 1)
+
+//@ func (*Executor).execRegexNode
+//@ props C01 C12
+//@ ensures [C01] boolean: ncalls(exec.executeBoolItem) == 1 && ncalls(exec.appendBoolResult) == 1 && callarg[predOutcome](exec.appendBoolResult, "res") == callret[predOutcome](exec.executeBoolItem, 0) && callarg[error](exec.appendBoolResult, "err") == callret[error](exec.executeBoolItem, 1) && r0 == callret[resultStatus](exec.appendBoolResult, 0) && r1 == callret[error](exec.appendBoolResult, 1)
+
+//@ func executeStartsWith
+//@ props C12
+//@ ensures [C12] strings: is[string](whole) && is[string](initial) ==> r1 == nil && r0 != predUnknown
+//@ ensures [C12] other: !(is[string](whole) && is[string](initial)) ==> r1 == nil && r0 == predUnknown
+//@ ensures [C12] equal-is-prefix: is[string](whole) && is[string](initial) && as[string](whole) == as[string](initial) ==> r0 == predTrue
+//@ ensures [C12] longer-not-prefix: is[string](whole) && is[string](initial) && len(as[string](initial)) > len(as[string](whole)) ==> r0 == predFalse
+
+//@ func (*Executor).executeLikeRegex
+//@ props C12 C05
+//@ requires is[*ast.RegexNode](node)
+//@ ensures [C12] nonstring: !is[string](value) ==> r0 == predUnknown && r1 == nil
+//@ ensures [C12] string: is[string](value) ==> r0 != predUnknown && r1 == nil
+
+// ---------------------------------------------------------------------------
+// boolean.go, predicate.go: three-valued logic
+
+// Kleene truth tables (spec functions, written from the property statement).
+
+//@ func kleeneAnd
+//@ ghost
+//@ inline
+
+func kleeneAnd(a, b predOutcome) predOutcome {
+	if a == predFalse || b == predFalse {
+		return predFalse
+	}
+	if a == predUnknown || b == predUnknown {
+		return predUnknown
+	}
+	return predTrue
+}
+
+//@ func kleeneOr
+//@ ghost
+//@ inline
+
+func kleeneOr(a, b predOutcome) predOutcome {
+	if a == predTrue || b == predTrue {
+		return predTrue
+	}
+	if a == predUnknown || b == predUnknown {
+		return predUnknown
+	}
+	return predFalse
+}
+
+//@ func kleeneNot
+//@ ghost
+//@ inline
+
+func kleeneNot(a predOutcome) predOutcome {
+	switch a {
+	case predTrue:
+		return predFalse
+	case predFalse:
+		return predTrue
+	}
+	return predUnknown
+}
+
+//@ func isUnknownSpec
+//@ ghost
+//@ inline
+
+func isUnknownSpec(a predOutcome) predOutcome {
+	if a == predUnknown {
+		return predTrue
+	}
+	return predFalse
+}
+
+//@ lemma kleene-laws
+//@ props C11
+//@ forall p predOutcome, q predOutcome
+//@ requires p <= predUnknown && q <= predUnknown
+//@ ensures and-commutes: kleeneAnd(p, q) == kleeneAnd(q, p)
+//@ ensures or-commutes: kleeneOr(p, q) == kleeneOr(q, p)
+//@ ensures double-negation: kleeneNot(kleeneNot(p)) == p
+//@ ensures de-morgan-and: kleeneNot(kleeneAnd(p, q)) == kleeneOr(kleeneNot(p), kleeneNot(q))
+//@ ensures de-morgan-or: kleeneNot(kleeneOr(p, q)) == kleeneAnd(kleeneNot(p), kleeneNot(q))
+//@ ensures is-unknown-two-valued: isUnknownSpec(p) != predUnknown
+//@ ensures is-unknown-iff: (isUnknownSpec(p) == predTrue) == (p == predUnknown)
+//@ ensures closed: kleeneAnd(p, q) <= predUnknown && kleeneOr(p, q) <= predUnknown && kleeneNot(p) <= predUnknown
+
+//@ func (*Executor).appendBoolResult
+//@ props C01 C11
+//@ requires node != nil
+//@ requires err-class: err != nil ==> (errIs(err, ErrExecution) || errIs(err, ErrInvalid)) && (exec.verbose || !errIs(err, ErrVerbose))
+//@ ensures [C11 C20 C08] error: err != nil ==> r0 == statusFailed && r1 == err
+//@ ensures [C01 C11] one-item: err == nil && !(node.Next() == nil && found == nil) ==> ncalls(exec.executeNextItem) == 1 && callarg[*valueList](exec.executeNextItem, "found") == found && callarg[any](exec.executeNextItem, "value") == ite(res == predUnknown, any(nil), any(res == predTrue)) && r0 == callret[resultStatus](exec.executeNextItem, 0) && r1 == callret[error](exec.executeNextItem, 1)
+//@ ensures [C01] exists-mode: err == nil && node.Next() == nil && found == nil ==> r0 == statusOK && r1 == nil && ncalls(exec.executeNextItem) == 0
+
+//@ func (*Executor).executeNestedBoolItem
+//@ props C09 C10
+//@ requires node != nil
+//@ requires wf-pred: ast.IsBoolNode(node) && node.Next() == nil
+//@ atcall executeBoolItem assert [C10 C09] current-bound: exec.current == value && arg_node == node && arg_value == value && !arg_canHaveNext
+//@ ensures [C09] restored: exec.current == old(exec.current)
+//@ ensures [C10] result: ncalls(exec.executeBoolItem) == 1 && r0 == callret[predOutcome](exec.executeBoolItem, 0) && r1 == callret[error](exec.executeBoolItem, 1)
+
+//@ func (*Executor).executeBoolItem
+//@ props C11 C05
+//@ requires node != nil
+//@ requires wf-pred: ast.IsBoolNode(node) && (canHaveNext || node.Next() == nil)
+//@ ensures [C05] never-invalid: errIs(r1, ErrInvalid) ==> pendingErr() == r1
+//@ ensures [C11] binary: is[*ast.BinaryNode](node) && (canHaveNext || node.Next() == nil) ==> ncalls(exec.executeBinaryBoolItem) == 1 && callarg[any](exec.executeBinaryBoolItem, "value") == value && r0 == callret[predOutcome](exec.executeBinaryBoolItem, 0) && r1 == callret[error](exec.executeBinaryBoolItem, 1)
+//@ ensures [C11] unary: is[*ast.UnaryNode](node) && (canHaveNext || node.Next() == nil) ==> ncalls(exec.executeUnaryBoolItem) == 1 && callarg[any](exec.executeUnaryBoolItem, "value") == value && r0 == callret[predOutcome](exec.executeUnaryBoolItem, 0) && r1 == callret[error](exec.executeUnaryBoolItem, 1)
+//@ ensures [C12] regex: is[*ast.RegexNode](node) && (canHaveNext || node.Next() == nil) ==> ncalls(exec.executePredicate) == 1 && callarg[any](exec.executePredicate, "value") == value && callarg[ast.Node](exec.executePredicate, "left") == as[*ast.RegexNode](node).Operand() && callarg[ast.Node](exec.executePredicate, "right") == nil && !callarg[bool](exec.executePredicate, "unwrapRightArg") && r0 == callret[predOutcome](exec.executePredicate, 0) && r1 == callret[error](exec.executePredicate, 1)
+//@ ensures [C05] invalid-only-if-malformed: errIs(r1, ErrInvalid) && pendingErr() == nil ==> !(canHaveNext || node.Next() == nil) || !(is[*ast.BinaryNode](node) || is[*ast.UnaryNode](node) || is[*ast.RegexNode](node))
+
+//@ func (*Executor).executeBinaryBoolItem
+//@ props C11 C12
+//@ requires node.Operator() <= ast.BinaryStartsWith
+//@ ensures [C11] and-left-false: node.Operator() == ast.BinaryAnd && callret[predOutcome](exec.executeBoolItem, 0) == predFalse && ncalls(exec.executeBoolItem) == 1 ==> r0 == predFalse
+//@ ensures [C11] and-table: node.Operator() == ast.BinaryAnd && ncalls(exec.executeBoolItem) == 2 && r1 == nil ==> r0 == kleeneAnd(firstret[predOutcome](exec.executeBoolItem, 0), callret[predOutcome](exec.executeBoolItem, 0))
+//@ ensures [C11] or-table: node.Operator() == ast.BinaryOr && ncalls(exec.executeBoolItem) == 2 && r1 == nil ==> r0 == kleeneOr(firstret[predOutcome](exec.executeBoolItem, 0), callret[predOutcome](exec.executeBoolItem, 0))
+//@ ensures [C11] and-short: node.Operator() == ast.BinaryAnd && ncalls(exec.executeBoolItem) == 1 ==> (callret[predOutcome](exec.executeBoolItem, 0) == predFalse && r0 == predFalse) || (callret[error](exec.executeBoolItem, 1) != nil && r1 == callret[error](exec.executeBoolItem, 1) && r0 == predUnknown)
+//@ ensures [C11] or-short: node.Operator() == ast.BinaryOr && ncalls(exec.executeBoolItem) == 1 ==> (callret[predOutcome](exec.executeBoolItem, 0) == predTrue && r0 == predTrue) || (callret[error](exec.executeBoolItem, 1) != nil && r1 == callret[error](exec.executeBoolItem, 1) && r0 == predUnknown)
+//@ ensures [C11] right-evaluated-unless-decided: (node.Operator() == ast.BinaryAnd && firstret[predOutcome](exec.executeBoolItem, 0) != predFalse || node.Operator() == ast.BinaryOr && firstret[predOutcome](exec.executeBoolItem, 0) != predTrue) && firstret[error](exec.executeBoolItem, 1) == nil ==> ncalls(exec.executeBoolItem) == 2
+//@ ensures [C11 C20] right-error: (node.Operator() == ast.BinaryAnd || node.Operator() == ast.BinaryOr) && ncalls(exec.executeBoolItem) == 2 && callret[error](exec.executeBoolItem, 1) != nil ==> r1 == callret[error](exec.executeBoolItem, 1) && r0 == predUnknown
+//@ ensures [C11] operands: (node.Operator() == ast.BinaryAnd || node.Operator() == ast.BinaryOr) ==> ncalls(exec.executeBoolItem) >= 1 && ncalls(exec.executeBoolItem) <= 2 && ncalls(exec.executePredicate) == 0
+//@ atcall executeBoolItem assert [C11 C09] same-item: arg_value == value && !arg_canHaveNext && (arg_node == node.Left() || arg_node == node.Right())
+//@ ensures [C12] comparison: node.Operator() >= ast.BinaryEqual && node.Operator() <= ast.BinaryGreaterOrEqual ==> ncalls(exec.executePredicate) == 1 && callarg[ast.Node](exec.executePredicate, "left") == node.Left() && callarg[ast.Node](exec.executePredicate, "right") == node.Right() && callarg[any](exec.executePredicate, "value") == value && callarg[bool](exec.executePredicate, "unwrapRightArg") && r0 == callret[predOutcome](exec.executePredicate, 0) && r1 == callret[error](exec.executePredicate, 1)
+//@ ensures [C12] starts-with: node.Operator() == ast.BinaryStartsWith ==> ncalls(exec.executePredicate) == 1 && !callarg[bool](exec.executePredicate, "unwrapRightArg") && callarg[ast.Node](exec.executePredicate, "left") == node.Left() && callarg[ast.Node](exec.executePredicate, "right") == node.Right() && r0 == callret[predOutcome](exec.executePredicate, 0) && r1 == callret[error](exec.executePredicate, 1)
+
+//@ func (*Executor).executeUnaryBoolItem
+//@ props C11
+//@ requires node.Operator() == ast.UnaryNot || node.Operator() == ast.UnaryIsUnknown || node.Operator() == ast.UnaryExists
+//@ ensures [C11] not: node.Operator() == ast.UnaryNot ==> ncalls(exec.executeBoolItem) == 1 && callarg[any](exec.executeBoolItem, "value") == value && r0 == kleeneNot(callret[predOutcome](exec.executeBoolItem, 0)) && (callret[predOutcome](exec.executeBoolItem, 0) != predUnknown ==> r1 == nil)
+//@ ensures [C11] is-unknown: node.Operator() == ast.UnaryIsUnknown && callret[error](exec.executeBoolItem, 1) == nil ==> ncalls(exec.executeBoolItem) == 1 && r1 == nil && r0 == isUnknownSpec(callret[predOutcome](exec.executeBoolItem, 0))
+//@ ensures [C11 C20 C08] is-unknown-keeps-hard-error: node.Operator() == ast.UnaryIsUnknown && callret[error](exec.executeBoolItem, 1) != nil ==> r1 == callret[error](exec.executeBoolItem, 1)
+//@ ensures [C11] is-unknown-two-valued: node.Operator() == ast.UnaryIsUnknown && r1 == nil ==> r0 != predUnknown
+//@ ensures [C11 C06] exists-strict: node.Operator() == ast.UnaryExists && exec.path.IsStrict() ==> ncalls(exec.executeItemOptUnwrapResultSilent) == 1 && callarg[*valueList](exec.executeItemOptUnwrapResultSilent, "found") != nil && fresh(callarg[*valueList](exec.executeItemOptUnwrapResultSilent, "found")) && (callret[resultStatus](exec.executeItemOptUnwrapResultSilent, 0) == statusFailed ==> r0 == predUnknown) && (callret[resultStatus](exec.executeItemOptUnwrapResultSilent, 0) != statusFailed ==> r1 == nil && r0 == ite(len(callarg[*valueList](exec.executeItemOptUnwrapResultSilent, "found").list) == 0, predFalse, predTrue))
+//@ ensures [C11 C06] exists-lax: node.Operator() == ast.UnaryExists && !exec.path.IsStrict() ==> ncalls(exec.executeItemOptUnwrapResultSilent) == 1 && callarg[*valueList](exec.executeItemOptUnwrapResultSilent, "found") == nil && r0 == ite(callret[resultStatus](exec.executeItemOptUnwrapResultSilent, 0) == statusFailed, predUnknown, ite(callret[resultStatus](exec.executeItemOptUnwrapResultSilent, 0) == statusOK, predTrue, predFalse))
+//@ ensures [C11] exists-operand: node.Operator() == ast.UnaryExists ==> callarg[any](exec.executeItemOptUnwrapResultSilent, "value") == value && callarg[ast.Node](exec.executeItemOptUnwrapResultSilent, "node") == node.Operand() && !callarg[bool](exec.executeItemOptUnwrapResultSilent, "unwrap")
+
+//@ func (*Executor).executePredicate
+//@ props C12 C10
+//@ requires left != nil
+//@ loop 1 invariant [C20 C05] no-pending: pendingErr() == nil
+//@ loop 1 invariant [C12] flags: (found ==> exec.path.IsStrict()) && (hasErr ==> !exec.path.IsStrict())
+//@ loop 1 invariant [C12] lax-none-true: !exec.path.IsStrict() ==> forall(func(i int, j int) bool { return implies(0 <= i && i <= rangeindex1 && 0 <= j && j < len(rSeq.list), dynret[predOutcome](callback, 0, ctx, pred, lSeq.list[i], rSeq.list[j]) != predTrue) })
+//@ loop 1 invariant [C12] strict-none-unknown: exec.path.IsStrict() ==> forall(func(i int, j int) bool { return implies(0 <= i && i <= rangeindex1 && 0 <= j && j < len(rSeq.list), dynret[predOutcome](callback, 0, ctx, pred, lSeq.list[i], rSeq.list[j]) != predUnknown) })
+//@ loop 1 invariant [C12] all-false-so-far: !found && !hasErr ==> forall(func(i int, j int) bool { return implies(0 <= i && i <= rangeindex1 && 0 <= j && j < len(rSeq.list), dynret[predOutcome](callback, 0, ctx, pred, lSeq.list[i], rSeq.list[j]) == predFalse) })
+//@ loop 2 invariant [C20 C05] no-pending: pendingErr() == nil
+//@ loop 2 invariant [C12] flags: (found ==> exec.path.IsStrict()) && (hasErr ==> !exec.path.IsStrict())
+//@ loop 2 invariant [C12] lax-none-true: !exec.path.IsStrict() ==> forall(func(i int, j int) bool { return implies(0 <= i && 0 <= j && j < len(rSeq.list) && (i < rangeindex1 || (i == rangeindex1 && j <= rangeindex2)), dynret[predOutcome](callback, 0, ctx, pred, lSeq.list[i], rSeq.list[j]) != predTrue) })
+//@ loop 2 invariant [C12] strict-none-unknown: exec.path.IsStrict() ==> forall(func(i int, j int) bool { return implies(0 <= i && 0 <= j && j < len(rSeq.list) && (i < rangeindex1 || (i == rangeindex1 && j <= rangeindex2)), dynret[predOutcome](callback, 0, ctx, pred, lSeq.list[i], rSeq.list[j]) != predUnknown) })
+//@ loop 2 invariant [C12] all-false-so-far: !found && !hasErr ==> forall(func(i int, j int) bool { return implies(0 <= i && 0 <= j && j < len(rSeq.list) && (i < rangeindex1 || (i == rangeindex1 && j <= rangeindex2)), dynret[predOutcome](callback, 0, ctx, pred, lSeq.list[i], rSeq.list[j]) == predFalse) })
+//@ atcall executeItemOptUnwrapResultSilent assert [C12 C10] operands: arg_value == value && (arg_node == left && arg_unwrap || arg_node == right && arg_unwrap == unwrapRightArg)
+//@ ensures [C12] local-lax-false: !exec.path.IsStrict() && r0 == predFalse && r1 == nil ==> forall(func(i int, j int) bool { return implies(0 <= i && i < len(lSeq.list) && 0 <= j && j < len(rSeq.list), dynret[predOutcome](callback, 0, ctx, pred, lSeq.list[i], rSeq.list[j]) == predFalse) })
+//@ ensures [C12] local-lax-unknown: !exec.path.IsStrict() && r0 == predUnknown && r1 == nil && pendingFailed() == false ==> forall(func(i int, j int) bool { return implies(0 <= i && i < len(lSeq.list) && 0 <= j && j < len(rSeq.list), dynret[predOutcome](callback, 0, ctx, pred, lSeq.list[i], rSeq.list[j]) != predTrue) })
+//@ ensures [C12] local-strict-true: exec.path.IsStrict() && r0 == predTrue ==> forall(func(i int, j int) bool { return implies(0 <= i && i < len(lSeq.list) && 0 <= j && j < len(rSeq.list), dynret[predOutcome](callback, 0, ctx, pred, lSeq.list[i], rSeq.list[j]) != predUnknown) })
+//@ ensures [C12] local-strict-false: exec.path.IsStrict() && r0 == predFalse ==> forall(func(i int, j int) bool { return implies(0 <= i && i < len(lSeq.list) && 0 <= j && j < len(rSeq.list), dynret[predOutcome](callback, 0, ctx, pred, lSeq.list[i], rSeq.list[j]) == predFalse) })
+//@ ensures [C12] true-witness: r0 == predTrue && !exec.path.IsStrict() ==> ncalls(callback) >= 1 && callret[predOutcome](callback, 0) == predTrue
+//@ ensures [C10 C08] operand-failure-is-unknown: pendingFailed() ==> r0 == predUnknown
+
+// ---------------------------------------------------------------------------
+// literal.go, const.go: accessors, bindings
+
+//@ func (*Executor).execLiteral
+//@ props C01 C09
+//@ requires node != nil
+//@ ensures [C01] exists-mode: node.Next() == nil && found == nil ==> r0 == statusOK && r1 == nil && ncalls(exec.executeNextItem) == 0
+//@ ensures [C01 C09] hand-on: !(node.Next() == nil && found == nil) ==> ncalls(exec.executeNextItem) == 1 && callarg[any](exec.executeNextItem, "value") == value && callarg[*valueList](exec.executeNextItem, "found") == found && callarg[ast.Node](exec.executeNextItem, "cur") == node && r0 == callret[resultStatus](exec.executeNextItem, 0) && r1 == callret[error](exec.executeNextItem, 1)
+
+//@ func (*Executor).execVariable
+//@ props C01 C08 C09
+//@ ensures [C08 C01] unknown-variable: len(exec.vars) >= 0 && ncalls(exec.executeNextItem) == 0 ==> r0 == statusFailed && r1 != nil && errIs(r1, ErrExecution) && !errIs(r1, ErrVerbose)
+//@ ensures [C09 C01] bound: ncalls(exec.executeNextItem) == 1 ==> callarg[any](exec.executeNextItem, "value") == exec.vars[node.Text()] && callarg[*valueList](exec.executeNextItem, "found") == found && r0 == callret[resultStatus](exec.executeNextItem, 0) && r1 == callret[error](exec.executeNextItem, 1)
+//@ ensures [C09] base-restored: exec.baseObject == old(exec.baseObject)
+
+//@ func (*Executor).execKeyNode
+//@ props C07
+//@ ensures [C07] member: is[map[string]any](value) && ncalls(exec.executeNextItem) == 1 ==> callarg[any](exec.executeNextItem, "value") == as[map[string]any](value)[node.Text()] && callarg[*valueList](exec.executeNextItem, "found") == found && r0 == callret[resultStatus](exec.executeNextItem, 0) && r1 == callret[error](exec.executeNextItem, 1)
+//@ ensures [C07] missing-lax: is[map[string]any](value) && ncalls(exec.executeNextItem) == 0 && exec.ignoreStructuralErrors ==> r0 == statusNotFound && r1 == nil
+//@ ensures [C07] missing-strict: is[map[string]any](value) && ncalls(exec.executeNextItem) == 0 && !exec.ignoreStructuralErrors ==> r0 == statusFailed && (exec.verbose ==> r1 != nil && errIs(r1, ErrVerbose)) && (!exec.verbose ==> r1 == nil)
+//@ ensures [C07] unwrap-array: is[[]any](value) && unwrap ==> ncalls(exec.executeAnyItem) == 1 && callarg[uint32](exec.executeAnyItem, "level") == 1 && callarg[uint32](exec.executeAnyItem, "first") == 1 && callarg[uint32](exec.executeAnyItem, "last") == 1 && !callarg[bool](exec.executeAnyItem, "unwrapNext") && callarg[*valueList](exec.executeAnyItem, "found") == found && r0 == callret[resultStatus](exec.executeAnyItem, 0) && r1 == callret[error](exec.executeAnyItem, 1)
+//@ ensures [C07] mismatch-lax: !is[map[string]any](value) && !(is[[]any](value) && unwrap) && exec.ignoreStructuralErrors ==> r0 == statusNotFound && r1 == nil && ncalls(exec.executeNextItem) == 0
+//@ ensures [C07] mismatch-strict: !is[map[string]any](value) && !(is[[]any](value) && unwrap) && !exec.ignoreStructuralErrors ==> r0 == statusFailed && (r1 == nil || errIs(r1, ErrVerbose)) && (exec.verbose ==> r1 != nil) && ncalls(exec.executeNextItem) == 0
+//@ ensures [C07] member-only-if-present: ncalls(exec.executeNextItem) <= 1 && (ncalls(exec.executeNextItem) == 1 ==> is[map[string]any](value))
+
+//@ func (*Executor).execConstNode
+//@ props C01 C09
+//@ ensures [C01 C09] root: node.Const() == ast.ConstRoot ==> ncalls(exec.executeNextItem) == 1 && callarg[any](exec.executeNextItem, "value") == exec.root && callarg[*valueList](exec.executeNextItem, "found") == found && r0 == callret[resultStatus](exec.executeNextItem, 0) && r1 == callret[error](exec.executeNextItem, 1)
+//@ ensures [C01 C09 C10] current: node.Const() == ast.ConstCurrent ==> ncalls(exec.executeNextItem) == 1 && callarg[any](exec.executeNextItem, "value") == exec.current && callarg[*valueList](exec.executeNextItem, "found") == found && r0 == callret[resultStatus](exec.executeNextItem, 0) && r1 == callret[error](exec.executeNextItem, 1)
+//@ ensures [C01] literal: node.Const() == ast.ConstNull || node.Const() == ast.ConstTrue || node.Const() == ast.ConstFalse ==> ncalls(exec.execLiteralConst) == 1 && r0 == callret[resultStatus](exec.execLiteralConst, 0) && r1 == callret[error](exec.execLiteralConst, 1)
+//@ ensures [C01 C15] any-key: node.Const() == ast.ConstAnyKey ==> ncalls(exec.execAnyKey) == 1 && callarg[any](exec.execAnyKey, "value") == value && callarg[bool](exec.execAnyKey, "unwrap") == unwrap && callarg[*valueList](exec.execAnyKey, "found") == found && r0 == callret[resultStatus](exec.execAnyKey, 0) && r1 == callret[error](exec.execAnyKey, 1)
+//@ ensures [C01 C15] any-array: node.Const() == ast.ConstAnyArray ==> ncalls(exec.execAnyArray) == 1 && callarg[any](exec.execAnyArray, "value") == value && callarg[*valueList](exec.execAnyArray, "found") == found && r0 == callret[resultStatus](exec.execAnyArray, 0) && r1 == callret[error](exec.execAnyArray, 1)
+//@ ensures [C01 C14] last: node.Const() == ast.ConstLast ==> ncalls(exec.execLastConst) == 1 && r0 == callret[resultStatus](exec.execLastConst, 0) && r1 == callret[error](exec.execLastConst, 1)
+//@ ensures [C09] base-restored: exec.baseObject == old(exec.baseObject)
+//@ ensures [C05] never-invalid: errIs(r1, ErrInvalid) ==> pendingErr() == r1
+
+//@ func (*Executor).execLiteralConst
+//@ props C01
+//@ ensures [C01] exists-mode: node.Next() == nil && found == nil ==> r0 == statusOK && r1 == nil
+//@ ensures [C01] value: !(node.Next() == nil && found == nil) ==> ncalls(exec.executeNextItem) == 1 && callarg[any](exec.executeNextItem, "value") == ite(node.Const() == ast.ConstNull, any(nil), any(node.Const() == ast.ConstTrue)) && callarg[*valueList](exec.executeNextItem, "found") == found && r0 == callret[resultStatus](exec.executeNextItem, 0) && r1 == callret[error](exec.executeNextItem, 1)
+
+//@ func (*Executor).execAnyKey
+//@ props C07 C15
+//@ ensures [C15] object: is[map[string]any](value) ==> ncalls(exec.executeAnyItem) == 1 && callarg[uint32](exec.executeAnyItem, "level") == 1 && callarg[uint32](exec.executeAnyItem, "first") == 1 && callarg[uint32](exec.executeAnyItem, "last") == 1 && !callarg[bool](exec.executeAnyItem, "ignoreStructuralErrors") && len(callarg[[]any](exec.executeAnyItem, "value")) == len(as[map[string]any](value)) && callarg[*valueList](exec.executeAnyItem, "found") == found && callarg[ast.Node](exec.executeAnyItem, "node") == node.Next() && r0 == callret[resultStatus](exec.executeAnyItem, 0) && r1 == callret[error](exec.executeAnyItem, 1)
+//@ ensures [C07] unwrap-array: is[[]any](value) && unwrap ==> ncalls(exec.executeItemUnwrapTargetArray) == 1 && callarg[any](exec.executeItemUnwrapTargetArray, "value") == value && r0 == callret[resultStatus](exec.executeItemUnwrapTargetArray, 0) && r1 == callret[error](exec.executeItemUnwrapTargetArray, 1)
+//@ ensures [C07] mismatch-lax: !is[map[string]any](value) && !(is[[]any](value) && unwrap) && exec.ignoreStructuralErrors ==> r0 == statusNotFound && r1 == nil
+//@ ensures [C07] mismatch-strict: !is[map[string]any](value) && !(is[[]any](value) && unwrap) && !exec.ignoreStructuralErrors ==> r0 == statusFailed && (r1 == nil || errIs(r1, ErrVerbose)) && (exec.verbose ==> r1 != nil)
+
+//@ func (*Executor).execAnyArray
+//@ props C07 C15
+//@ ensures [C15] array: is[[]any](value) ==> ncalls(exec.executeAnyItem) == 1 && callarg[uint32](exec.executeAnyItem, "level") == 1 && callarg[uint32](exec.executeAnyItem, "first") == 1 && callarg[uint32](exec.executeAnyItem, "last") == 1 && sameSlice(callarg[[]any](exec.executeAnyItem, "value"), as[[]any](value)) && callarg[*valueList](exec.executeAnyItem, "found") == found && callarg[ast.Node](exec.executeAnyItem, "node") == node.Next() && r0 == callret[resultStatus](exec.executeAnyItem, 0) && r1 == callret[error](exec.executeAnyItem, 1)
+//@ ensures [C07] autowrap: !is[[]any](value) && exec.path.IsLax() ==> ncalls(exec.executeNextItem) == 1 && callarg[any](exec.executeNextItem, "value") == value && callarg[*valueList](exec.executeNextItem, "found") == found && r0 == callret[resultStatus](exec.executeNextItem, 0) && r1 == callret[error](exec.executeNextItem, 1)
+//@ ensures [C07] strict-error: !is[[]any](value) && !exec.path.IsLax() && !exec.ignoreStructuralErrors ==> r0 == statusFailed && (r1 == nil || errIs(r1, ErrVerbose)) && (exec.verbose ==> r1 != nil)
+//@ ensures [C07] strict-below-anypath: !is[[]any](value) && !exec.path.IsLax() && exec.ignoreStructuralErrors ==> r0 == statusNotFound && r1 == nil
+
+//@ func (*Executor).execLastConst
+//@ props C14 C09
+//@ ensures [C14] outside: exec.innermostArraySize < 0 ==> r0 == statusFailed && r1 != nil && errIs(r1, ErrExecution) && !errIs(r1, ErrVerbose)
+//@ ensures [C14 C09] value: exec.innermostArraySize >= 0 && !(node.Next() == nil && found == nil) ==> ncalls(exec.executeNextItem) == 1 && callarg[any](exec.executeNextItem, "value") == any(int64(exec.innermostArraySize - 1)) && callarg[*valueList](exec.executeNextItem, "found") == found && r0 == callret[resultStatus](exec.executeNextItem, 0) && r1 == callret[error](exec.executeNextItem, 1)
+
+//@ func (*Executor).tempSetIgnoreStructuralErrors
+//@ props C07 C09
+//@ inline
+
+//@ func (*Executor).setTempBaseObject
+//@ props C09 C16
+//@ inline
+
+// ---------------------------------------------------------------------------
+// math.go, util.go: arithmetic
+
+//@ func executeFloatMath
+//@ props C13 C05
+//@ ensures [C13] add: op == ast.BinaryAdd ==> r1 == nil && sameFloat(r0, lhs+rhs)
+//@ ensures [C13] sub: op == ast.BinarySub ==> r1 == nil && sameFloat(r0, lhs-rhs)
+//@ ensures [C13] mul: op == ast.BinaryMul ==> r1 == nil && sameFloat(r0, lhs*rhs)
+//@ ensures [C13] div: op == ast.BinaryDiv && rhs != 0 ==> r1 == nil && sameFloat(r0, lhs/rhs)
+//@ ensures [C13] zero: (op == ast.BinaryDiv || op == ast.BinaryMod) && rhs == 0 ==> r1 != nil && errIs(r1, ErrVerbose) && errIs(r1, ErrExecution)
+//@ ensures [C13] mod-ok: op == ast.BinaryMod && rhs != 0 ==> r1 == nil
+//@ ensures [C05] class: r1 != nil ==> (errIs(r1, ErrVerbose) && errIs(r1, ErrExecution)) || errIs(r1, ErrInvalid)
+//@ ensures [C05] math-op-never-invalid: op >= ast.BinaryAdd && op <= ast.BinaryMod ==> !errIs(r1, ErrInvalid)
+//@ ensures [C05] local-finite: r1 == nil && !isNaN(lhs) && !isInf(lhs) && !isNaN(rhs) && !isInf(rhs) && op != ast.BinaryMod ==> !isNaN(r0) && !isInf(r0)
+
+//@ func mathOperandErr
+//@ props C13
+//@ ensures r0 != nil && errIs(r0, ErrVerbose) && errIs(r0, ErrExecution) && !errIs(r0, ErrInvalid)
+
+//@ func intUMinus
+//@ props C13
+//@ ensures [C13] exact: fitsInt64(-x) ==> r0 == -x
+//@ ensures [C13] nowrap: !fitsInt64(-x) ==> false
+
+//@ func intAbs
+//@ props C16 C13
+//@ ensures [C16] exact: x >= 0 ==> r0 == x
+//@ ensures [C16] exact-neg: x < 0 && fitsInt64(-x) ==> r0 == -x
+//@ ensures [C16] nowrap: r0 >= 0
+
+//@ func intSelf
+//@ props C13
+//@ ensures r0 == x
+
+//@ func floatSelf
+//@ props C13
+//@ ensures r0 == x || isNaN(x)
+
+//@ func floatUMinus
+//@ props C13
+//@ ensures r0 == -x || isNaN(x)
+
+//@ func execMathOp
+//@ props C13
+//@ ensures [C05 C13] class: r1 != nil ==> errIs(r1, ErrVerbose) && errIs(r1, ErrExecution) && !errIs(r1, ErrInvalid) || !(op >= ast.BinaryAdd && op <= ast.BinaryMod)
+//@ ensures [C13] nonnumeric-left: !(is[int64](left) || is[float64](left) || is[json.Number](left)) ==> r1 != nil
+//@ ensures [C13] nonnumeric-right: (is[int64](left) || is[float64](left)) && !(is[int64](right) || is[float64](right) || is[json.Number](right)) ==> r1 != nil
+//@ ensures [C13] result-numeric: r1 == nil ==> is[int64](r0) || is[float64](r0)
+//@ ensures [C13] int-int: is[int64](left) && is[int64](right) ==> ncalls(executeIntegerMath) == 1 && callarg[int64](executeIntegerMath, "lhs") == as[int64](left) && callarg[int64](executeIntegerMath, "rhs") == as[int64](right) && callarg[ast.BinaryOperator](executeIntegerMath, "op") == op
+//@ ensures [C13] float-float: is[float64](left) && is[float64](right) ==> ncalls(executeFloatMath) == 1 && callarg[ast.BinaryOperator](executeFloatMath, "op") == op
+//@ ensures [C13] value-passed: r1 == nil ==> (ncalls(executeIntegerMath) == 1 && ncalls(executeFloatMath) == 0 && ncalls(execMathOp) == 0 && r0 == any(callret[int64](executeIntegerMath, 0))) || (ncalls(executeFloatMath) == 1 && ncalls(executeIntegerMath) == 0 && ncalls(execMathOp) == 0 && r0 == any(callret[float64](executeFloatMath, 0))) || (ncalls(execMathOp) == 1 && ncalls(executeIntegerMath) == 0 && ncalls(executeFloatMath) == 0 && r0 == callret[any](execMathOp, 0))
+
+//@ func castJSONNumber
+//@ props C13
+//@ ensures [C13] result-numeric: r1 ==> is[int64](r0) || is[float64](r0)
+
+//@ func (*Executor).execBinaryMathExpr
+//@ props C13
+//@ requires node.Operator() >= ast.BinaryAdd && node.Operator() <= ast.BinaryMod
+//@ atcall executeItemOptUnwrapResult assert [C13 C09] operands: arg_value == value && arg_unwrap && (arg_node == node.Left() || arg_node == node.Right()) && fresh(arg_found)
+//@ ensures [C13] left-singleton: ncalls(exec.executeItemOptUnwrapResult) >= 1 && pendingErr() == nil && !pendingFailed() && ncalls(execMathOp) == 0 && ncalls(exec.executeItemOptUnwrapResult) == 1 ==> r0 == statusFailed && (r1 == nil || errIs(r1, ErrVerbose))
+//@ ensures [C13] one-result: r1 == nil && r0 != statusFailed && !(node.Next() == nil && found == nil) ==> ncalls(execMathOp) == 1 && ncalls(exec.executeNextItem) == 1 && callarg[any](exec.executeNextItem, "value") == callret[any](execMathOp, 0) && callarg[*valueList](exec.executeNextItem, "found") == found
+//@ ensures [C13] math-error-suppressible: ncalls(execMathOp) == 1 && callret[error](execMathOp, 1) != nil ==> r0 == statusFailed && (r1 == nil || errIs(r1, ErrVerbose)) && ncalls(exec.executeNextItem) == 0
+//@ ensures [C13] operands-op: ncalls(execMathOp) == 1 ==> callarg[ast.BinaryOperator](execMathOp, "op") == node.Operator()
+
+//@ func (*Executor).execUnaryMathExpr
+//@ props C13
+//@ requires node.Operator() == ast.UnaryPlus || node.Operator() == ast.UnaryMinus
+//@ loop 1 invariant [C20 C05] no-pending: pendingErr() == nil && !pendingFailed()
+//@ loop 1 invariant status: res == statusOK || res == statusNotFound
+//@ loop 1 invariant [C09] id-grows: exec.lastGeneratedObjectID >= old(exec.lastGeneratedObjectID)
+//@ loop 1 invariant [C13] every-item: !(found == nil && node.Next() == nil) ==> ncalls(exec.executeNextItem) == loopEntry(ncalls(exec.executeNextItem)) + rangeindex + 1
+//@ atcall executeItemOptUnwrapResult assert [C13] operand: arg_value == value && arg_unwrap && arg_node == node.Operand()
+//@ atcall executeNextItem assert [C13] numeric-only: arg_found == found && (is[int64](v) || is[float64](v) || is[json.Number](v))
+//@ atcall executeNextItem assert [C13] int-negated: is[int64](v) ==> arg_value == any(dynret[int64](intCallback, 0, as[int64](v)))
+//@ atcall executeNextItem assert [C13] float-negated: is[float64](v) ==> arg_value == any(dynret[float64](floatCallback, 0, as[float64](v)))
